@@ -2,8 +2,8 @@ package twig
 
 import "os"
 
-// C02: concurrent use of one engine is safe. Interleavings are not solver variables; what is decided
-// symbolically is the sufficient condition lock discipline: on every path of every concurrently
+// C02: concurrent use of one engine is safe. Two kinds of obligation. Discipline (below): the
+// sufficient condition lock discipline is decided symbolically: on every path of every concurrently
 // callable entry point, every access to memory reachable from the shared engine (and its loaders) is
 // recorded with the set of mutexes held; a write that is not ordered by a common mutex with another
 // access to the same location is a race candidate (lockset / Eraser condition). Natively the
